@@ -276,18 +276,30 @@ func (s *metricSchemaStore) Flush() error {
 	if err != nil {
 		return err
 	}
-	err = s.immutable.WalkEntry(func(key uint32, value *metric.Schema) error {
-		if !value.NeedWrite() {
-			return nil
+	// writers append to a schema of immutable store(it's shared with mutable store) while it's written,
+	// so write copies taken under the lock, and mark only what was written as persisted.
+	var keys []uint32
+	var written []*metric.Schema
+	s.lock.RLock()
+	_ = s.immutable.WalkEntry(func(key uint32, value *metric.Schema) error {
+		if value.NeedWrite() {
+			keys = append(keys, key)
+			written = append(written, &metric.Schema{
+				Fields:  append(field.Metas{}, value.Fields...),
+				TagKeys: append(tag.Metas{}, value.TagKeys...),
+			})
 		}
-		flusher.Prepare(key)
-		if err0 := flusher.Write(value); err0 != nil {
-			return err0
-		}
-		return flusher.Commit()
+		return nil
 	})
-	if err != nil {
-		return err
+	s.lock.RUnlock()
+	for idx, key := range keys {
+		flusher.Prepare(key)
+		if err = flusher.Write(written[idx]); err != nil {
+			return err
+		}
+		if err = flusher.Commit(); err != nil {
+			return err
+		}
 	}
 	err = flusher.Close()
 	if err != nil {
@@ -297,10 +309,16 @@ func (s *metricSchemaStore) Flush() error {
 
 	s.lock.Lock()
 	// mark schema persisted
-	_ = s.immutable.WalkEntry(func(_ uint32, value *metric.Schema) error {
-		value.MarkPersisted()
-		return nil
-	})
+	for idx, key := range keys {
+		if value, ok := s.immutable.Get(key); ok {
+			for i := range written[idx].Fields {
+				value.Fields[i].Persisted = true
+			}
+			for i := range written[idx].TagKeys {
+				value.TagKeys[i].Persisted = true
+			}
+		}
+	}
 	s.immutable = nil
 	s.flushes++
 	s.cache.Purge()
